@@ -23,4 +23,38 @@ C16_FILTER = dict(
     raises=[("KPerSampleBatcher only works if all plates", 1)],
 )
 
-ALL = [C16_FILTER]
+C17_SAMPLE = dict(
+    file="src/batchie/sampling.py", func="sample",
+    out="SrcSampling.v", imports="Model.Sampling", name="src_sample",
+    pyparams=["model", "results", "seed", "n_chains", "chain_index", "n_burnin", "thin", "progress_bar"],
+    # kind: which class the model object is an instance of (0 MCMCModel, 1 VIModel, other neither);
+    # n_thetas = results.n_thetas; w = (calls so far, len(results.thetas)); returned = len(model.sample(...))
+    params=[("kind", "Z"), ("seed", "Z"), ("n_chains", "opt Z"), ("chain_index", "opt Z"), ("n_burnin", "opt Z"),
+            ("thin", "opt Z"), ("n_thetas", "Z"), ("w", "world"), ("returned", "nat")],
+    returns="world",
+    vars={"seeds": "seeds", "rng": "rngkey", "total_steps": "Z", "step_index": "Z", "samples": "list theta", "theta": "theta"},
+    match_class={"model": {"MCMCModel": "kind =? 0", "VIModel": "kind =? 1"}},
+    range_like=("range", "trange"),     # tqdm.trange(n, disable=...) iterates range(n)
+    prims=[
+        ("results.n_thetas", "n_thetas", "Z"),
+        ("results", "w", "world"),
+        ("numpy.random.SeedSequence(__s).spawn(__n)", "!spawn_seeds {s} {n}", "seeds", {"s": "Z", "n": "Z"}),
+        ("numpy.random.default_rng(__q[__i])", "!rng_of_spawned {q} {i}", "rngkey", {"q": "seeds", "i": "Z"}),
+        ("numpy.random.default_rng(__s)", "!rng_of_seed {s}", "rngkey", {"s": "Z"}),
+    ],
+    effects=[
+        ("model.reset_model()", "w", "emit {state} Reset"),
+        ("model.set_rng(__r)", "w", "emit {state} (SetRng (fst {r}) (snd {r}))"),
+        ("model.step()", "w", "emit {state} Step"),
+        ("results.add_theta(model.get_model_state())", "w", "!add_theta n_thetas {state}"),
+        ("results.add_theta(__t)", "w", "!add_theta n_thetas {state}"),
+    ],
+    effect_calls=[
+        ("model.sample(num_samples=__n)", "w", "emit {state} (SampleVI {n})", "vi_samples returned", "list theta"),
+    ],
+    ignore=["logger.info(__a)"],
+    raises=[("n_chains must be set", 5), ("chain_index must be set", 5), ("n_burnin must be set", 5),
+            ("thin must be set", 5), ("model must be one of", 6)],
+)
+
+ALL = [C16_FILTER, C17_SAMPLE]
